@@ -129,7 +129,10 @@ def run_case(p, case):
         Food.conversions.set_nutrition_requirements(kcals_daily=unhex(case["Kconv"]), fat_daily=47.0, protein_daily=51.0,
                                                     include_fat=False, include_protein=False, population=1e7)
         ir = mk_ir(case)
-        ci = {"MINIMUM_PERCENT_FED_BEFORE_NONHUMAN_CONSUMPTION_ALLOWED": unhex(case["T"]),
+        T = unhex(case["T"])
+        if case.get("T_int"):
+            T = int(T)   # the scenario setters write plain ints (100, 10); 0 is a legal boundary value
+        ci = {"MINIMUM_PERCENT_FED_BEFORE_NONHUMAN_CONSUMPTION_ALLOWED": T,
               "NUTRITION": {"KCALS_DAILY": unhex(case["K"])}, "NMONTHS": int(case["N"])}
         with np.errstate(all="ignore"):
             out = p.calculate_human_consumption_for_min_needs(ci, ir, None)
@@ -184,6 +187,9 @@ def capture_real(runs):
         return nb, nf
 
     def w_second(self, ci, co1, tc1, ir1):
+        if cur.get("_threshold") is not None:
+            # a run configured with another legal threshold (no shipped setter writes 0): set before round 2 reads it
+            ci["MINIMUM_PERCENT_FED_BEFORE_NONHUMAN_CONSUMPTION_ALLOWED"] = cur["_threshold"]
         res = orig["compute_parameters_second_round"](self, ci, co1, tc1, ir1)
         h = {"skipped": res[1] is None}
         if res[1] is not None:
@@ -224,7 +230,8 @@ def capture_real(runs):
     try:
         for r in runs:
             cur.clear()
-            rec = {"country": r["country"], "option": r.get("option", {})}
+            cur["_threshold"] = r.get("threshold")
+            rec = {"country": r["country"], "option": r.get("option", {}), "threshold": r.get("threshold")}
             try:
                 with quiet():
                     needs, interp = runutil.run_country(r["country"], runutil.option(**r.get("option", {})),
@@ -236,6 +243,7 @@ def capture_real(runs):
             finally:
                 runutil.cleanup_cwd()
             cur.pop("_min_obj", None)
+            cur.pop("_threshold", None)
             rec.update(copy.deepcopy(cur))
             out.append(rec)
     finally:
